@@ -37,6 +37,7 @@ TrMixed ==
     /\ Len(Ln.out0) = Len(solo["g"]) /\ Len(Ln.out1) = Len(solo["h"])
     /\ Ln.out0 = solo["g"]                   \* Isolation: same outputs as alone ...
     /\ Ln.out1 = solo["h"]                   \* ... for both groups
+    /\ ("leftover" \in DOMAIN Ln => Ln.leftover = 0)   \* output nodes: no row left behind for a deleted group, no nil row
     /\ UNCHANGED <<vars, solo, have>>
 
 (* Delete-group: after a DeleteGroup message the group's machine is a fresh one, so *)
